@@ -145,3 +145,17 @@ end
 /-- unfold translated definitions down to real-number expressions -/
 macro "cas_unfold" : tactic =>
   `(tactic| simp only [cas_defs, cas_real])
+
+namespace CasReal
+/-! normal forms for CasADi's 0/1 encoded conditions -/
+@[cas_real] theorem ite01_ne_zero (p : Prop) [Decidable p] : ((if p then (1:ℝ) else 0) ≠ 0) ↔ p := by
+  by_cases h : p <;> simp [h]
+@[cas_real] theorem ite01_eq_zero (p : Prop) [Decidable p] : ((if p then (1:ℝ) else 0) = 0) ↔ ¬p := by
+  by_cases h : p <;> simp [h]
+/-- `if_else(c, x, y)` as CasADi lowers it -/
+@[cas_real] theorem ite_add_ite_not (p : Prop) [Decidable p] (x y : ℝ) :
+    (if p then x else 0) + (if ¬p then y else 0) = if p then x else y := by
+  by_cases h : p <;> simp [h]
+end CasReal
+
+attribute [cas_real] Int.cast_zero Int.cast_one Int.cast_ofNat Int.cast_neg Int.cast_natCast
